@@ -56,6 +56,10 @@ pub struct TestSpec {
     /// command like any other
     #[serde(default)]
     pub trap_term: u8,
+    /// the command prints (and the expectation contains) that many extra characters: makes the
+    /// document / the compiled script large
+    #[serde(default)]
+    pub pad: u16,
 }
 
 impl TestSpec {
@@ -72,6 +76,7 @@ impl TestSpec {
             detached: false,
             wait_ms: None,
             trap_term: 0,
+            pad: 0,
         }
     }
 }
@@ -103,6 +108,12 @@ pub struct DocSpec {
     /// front-matter `total_timeout` in ms (Markdown only); Some(0) = unlimited
     pub total_timeout_ms: Option<u64>,
     pub defect: Defect,
+    /// that many additional passing test cases (padded with `filler_pad` characters) follow the
+    /// listed ones: large documents without large case descriptions
+    #[serde(default)]
+    pub filler: usize,
+    #[serde(default)]
+    pub filler_pad: u16,
 }
 
 impl DocSpec {
@@ -116,7 +127,21 @@ impl DocSpec {
             skip_code: None,
             total_timeout_ms: None,
             defect: Defect::None,
+            filler: 0,
+            filler_pad: 0,
         }
+    }
+
+    /// the listed test cases followed by the filler ones
+    pub fn all_tests(&self) -> Vec<TestSpec> {
+        let mut v = self.tests.clone();
+        let stem: String = self.name.chars().filter(|c| c.is_ascii_alphanumeric()).collect();
+        for i in 0..self.filler {
+            let mut t = TestSpec::pass(&format!("{stem}f{i}"));
+            t.pad = self.filler_pad;
+            v.push(t);
+        }
+        v
     }
 }
 
@@ -529,7 +554,8 @@ fn model_doc(run: &RunSpec, doc: &DocSpec) -> Result<DocModel, Undecided> {
     collect(run, doc, Role::AppendDoc, &doc.append, &mut parts, &mut abort)?;
     collect(run, doc, Role::AppendCli, &run.cli_append, &mut parts, &mut abort)?;
 
-    let tests: Vec<(Role, &TestSpec)> = parts.iter().flat_map(|(r, d)| d.tests.iter().map(move |t| (*r, t))).collect();
+    let owned: Vec<(Role, TestSpec)> = parts.iter().flat_map(|(r, d)| d.all_tests().into_iter().map(move |t| (*r, t))).collect();
+    let tests: Vec<(Role, &TestSpec)> = owned.iter().map(|(r, t)| (*r, t)).collect();
     let mut seq: Vec<TestModel> = tests
         .iter()
         .map(|(role, t)| TestModel {
